@@ -820,6 +820,8 @@ class Tr:
             return '(Py.replicate %s %s)' % (n, v), tlist(tv)
         if isinstance(op, ast.Mod) and isinstance(node.left, ast.Constant) and isinstance(node.left.value, str):
             return self.percent_format(node, env, binds)
+        if isinstance(op, ast.Mod) and isinstance(node.left, (ast.Name, ast.Attribute)) and isinstance(self.const_value(node.left, env), str):
+            return self.percent_format(node, env, binds, self.const_value(node.left, env))
         a, ta = self.expr(node.left, env, binds)
         b, tb = self.expr(node.right, env, binds)
         if isinstance(op, ast.Mult) and ta == BYTES and tb == INT:
@@ -860,8 +862,34 @@ class Tr:
             return '(Py.bxor %s %s)' % (a, b), INT
         bad(node, 'binary operator %s' % type(op).__name__)
 
-    def percent_format(self, node, env, binds):
-        tmpl = node.left.value
+    def const_value(self, node, env):
+        """the Python value of a literal, or of a class- / module-level constant named by `node` (None when it is neither)"""
+        try:
+            return literal_value(node)
+        except ValueError:
+            pass
+        fn = self.fn
+        if isinstance(node, ast.Name) and node.id not in env and node.id in fn.module_consts:
+            return fn.module_consts[node.id]
+        if isinstance(node, ast.Attribute) and isinstance(node.value, ast.Name) and node.value.id not in env:
+            base, attr = node.value.id, node.attr
+            for cls in fn.classes:
+                if cls.name == base or base in ('self', 'cls'):
+                    v = constants_of(cls).get(attr)
+                    if v is not None:
+                        return v
+            if base in fn.imports:
+                kind, fname, cname = fn.imports[base]
+                try:
+                    tree = Source.tree(fname)
+                    scope = child_def(tree, cname) if kind == 'class' else tree
+                    return constants_of(scope).get(attr)
+                except (Untranslatable, OSError):
+                    return None
+        return None
+
+    def percent_format(self, node, env, binds, tmpl=None):
+        tmpl = node.left.value if tmpl is None else tmpl
         argn = list(node.right.elts) if isinstance(node.right, ast.Tuple) else [node.right]
         args = [self.expr(a, env, binds) for a in argn]
         out, i, n, lit_run = [], 0, 0, ''
@@ -1347,6 +1375,18 @@ class Tr:
             bad(s, 'external call outside a procedure')
         if call.keywords:
             bad(s, 'keyword arguments in an external call')
+        if any(isinstance(a, ast.Starred) for a in call.args):
+            # f(..., *CONSTANT_TUPLE): the tuple is spelled out
+            flat = []
+            for a in call.args:
+                if isinstance(a, ast.Starred):
+                    v = self.const_value(a.value, env)
+                    if not isinstance(v, list):
+                        bad(s, 'a starred argument that is not a constant tuple')
+                    flat += [ast.copy_location(ast.Constant(value=x), a) for x in v]
+                else:
+                    flat.append(a)
+            call = ast.copy_location(ast.Call(func=call.func, args=flat, keywords=call.keywords), call)
         binds = []
         args = []
         for pos, tn in zip(spec['args'], spec['arg_types']):
@@ -1593,8 +1633,11 @@ def directly_assigns(st, var):
     return False
 
 
+GLOBAL_NAMES = set()     # class names and imported names of the file being translated: a reference like GEXTest.LIMIT is a constant, not a variable
+
+
 def names_in(node):
-    return {x.id for x in ast.walk(node) if isinstance(x, ast.Name)}
+    return {x.id for x in ast.walk(node) if isinstance(x, ast.Name)} - GLOBAL_NAMES
 
 
 def select_statements(func, selectors):
@@ -1705,6 +1748,13 @@ def fall_off(env):
 
 def translate_entry(name, fname, qual, opts, known):
     chain = find_def(fname, qual)
+    GLOBAL_NAMES.clear()
+    for st in chain[0].body:
+        if isinstance(st, ast.ClassDef):
+            GLOBAL_NAMES.add(st.name)
+        elif isinstance(st, (ast.Import, ast.ImportFrom)):
+            for al in st.names:
+                GLOBAL_NAMES.add((al.asname or al.name).split('.')[0])
     func = chain[-1]
     if not isinstance(func, ast.FunctionDef):
         raise Untranslatable('%s is not a function' % qual)
@@ -1782,7 +1832,7 @@ def translate_entry(name, fname, qual, opts, known):
                         cur = cur.orelse[0]
                     else:
                         break
-                if len(tests) >= 2 and all({x.id for x in ast.walk(t_) if isinstance(x, ast.Name)} == {var} for t_ in tests):
+                if len(tests) >= 2 and all(names_in(t_) == {var} for t_ in tests):
                     hits.append(tests)
         hits = [h for h in hits if not any(len(o) > len(h) and o[-len(h):] == h for o in hits)]     # an elif is not a chain of its own
         if len(hits) != 1:
@@ -1909,7 +1959,7 @@ def translate_entry(name, fname, qual, opts, known):
         if len(hits) != want or not all(isinstance(h, ast.Assign) for h in hits):
             raise Untranslatable('expected exactly %d plain assignment(s) to %s, found %d' % (want, var, len(hits)))
         value = hits[opts.get('nth', 0)].value
-        free = sorted({x.id for x in ast.walk(value) if isinstance(x, ast.Name)} - {'bool', 'len', 'ord', 'min', 'max'})
+        free = sorted(names_in(value) - {'bool', 'len', 'ord', 'min', 'max'})
         for v in free:
             if v not in opts['free']:
                 raise Untranslatable('the right-hand side reads %s, which the table does not type' % v)
